@@ -39,8 +39,38 @@ type batchCase struct {
 
 var envMu sync.Mutex
 
+// setupPlan travels with a script as the archive file zz_setup_plan: what Params.Setup does for that script
+// (register n deferred functions through Env.Defer, then optionally fail).
+type setupPlan struct {
+	Defers int
+	Fail   string // "" | error | fatal
+}
+
+const planFile = "zz_setup_plan"
+
+func planOf(files []tsmodel.ArchiveFile) setupPlan {
+	var p setupPlan
+	for _, f := range files {
+		if f.Name == planFile {
+			fmt.Sscanf(f.Data, "defers=%d fail=%s", &p.Defers, &p.Fail)
+		}
+	}
+	if p.Fail == "-" {
+		p.Fail = ""
+	}
+	return p
+}
+
+func (p setupPlan) tags() []string {
+	var t []string
+	for i := p.Defers - 1; i >= 0; i-- {
+		t = append(t, fmt.Sprintf("setup-%d", i))
+	}
+	return t
+}
+
 type info struct {
-	collide, midway, leftover bool
+	collide, midway, leftover, setupFail bool
 }
 
 var last info
@@ -129,6 +159,21 @@ func checkBatch(c batchCase) *vt.Fail {
 			lmu.Lock()
 			listings[filepath.Base(e.WorkDir)] = ls
 			lmu.Unlock()
+			var plan setupPlan
+			if b, err := os.ReadFile(filepath.Join(e.WorkDir, planFile)); err == nil {
+				plan = planOf([]tsmodel.ArchiveFile{{Name: planFile, Data: string(b)}})
+			}
+			name := strings.TrimPrefix(filepath.Base(e.WorkDir), "script-")
+			for i := 0; i < plan.Defers; i++ {
+				tag := fmt.Sprintf("setup-%d", i)
+				e.Defer(func() { r.RecordDefer(name, tag) })
+			}
+			switch plan.Fail {
+			case "error":
+				return fmt.Errorf("planned setup failure")
+			case "fatal":
+				e.T().Fatal("planned setup failure")
+			}
 			return nil
 		}}
 	if c.P.CustomCond {
@@ -255,6 +300,23 @@ func checkBatch(c batchCase) *vt.Fail {
 			dump = parseDump(std[0])
 			work = dump["WORK"]
 		}
+		plan := planOf(s.Files)
+		if plan.Fail != "" {
+			// Setup failed after registering its deferred functions: the run ended as failed, and they must still have run
+			last.midway = true
+			last.setupFail = true
+			ctx := fmt.Sprintf("\nbatch of %d scripts (mode %s); script %s, whose Setup registered %d deferred functions and then failed (%s)\nlog:\n%s", len(c.Scripts), c.Mode, name, plan.Defers, plan.Fail, trunc(sub.Log, 800))
+			if sub.Verdict != "fail" {
+				return vt.Failf("verdict-differs-from-alone", "script %s was reported %s although its Setup failed%s", name, sub.Verdict, ctx)
+			}
+			if len(std) > 0 || len(r.Probes[name]) > 0 {
+				return vt.Failf("probes-differ-from-alone", "script %s ran lines although its Setup failed%s", name, ctx)
+			}
+			if !reflect.DeepEqual(r.Defers[name], plan.tags()) && plan.Defers > 0 {
+				return vt.Failf("defers-wrong-order", "script %s: deferred functions ran as %v, expected %v (reverse registration order)%s", name, r.Defers[name], plan.tags(), ctx)
+			}
+			continue
+		}
 		if work == "" {
 			if sub.Verdict == "fail" && strings.Contains(sub.Log, "RequireUniqueNames") {
 				continue // setup failed before the first line
@@ -317,8 +379,9 @@ func checkBatch(c batchCase) *vt.Fail {
 			return vt.Failf("variables-differ-from-alone", "script %s: getenv saw %v, alone %v%s", name, r.Envs[name], want.Envs, ctx)
 		}
 		// (3) defers in reverse order on every exit path
-		if !reflect.DeepEqual(r.Defers[name], want.Defers) && len(r.Defers[name])+len(want.Defers) > 0 {
-			return vt.Failf("defers-wrong-order", "script %s: deferred functions ran as %v, expected %v (reverse registration order)%s", name, r.Defers[name], want.Defers, ctx)
+		wantDefers := append(append([]string{}, want.Defers...), plan.tags()...)
+		if !reflect.DeepEqual(r.Defers[name], wantDefers) && len(r.Defers[name])+len(wantDefers) > 0 {
+			return vt.Failf("defers-wrong-order", "script %s: deferred functions ran as %v, expected %v (reverse registration order, Setup's first registered last run)%s", name, r.Defers[name], wantDefers, ctx)
 		}
 		if c.Mode != "default" {
 			tree := tskit.Snapshot(work, ".tmp")
@@ -424,7 +487,12 @@ func genBatch(t *rapid.T) batchCase {
 			i++
 			continue
 		}
-		c.Scripts = append(c.Scripts, tsgen.Gen(t, o))
+		sc := tsgen.Gen(t, o)
+		if rapid.IntRange(0, 2).Draw(t, "setupplan") == 0 {
+			sc.Files = append(sc.Files, tsmodel.ArchiveFile{Name: planFile, Data: fmt.Sprintf("defers=%d fail=%s\n", rapid.IntRange(0, 3).Draw(t, "setupdefers"),
+				rapid.SampledFrom([]string{"-", "-", "error", "fatal"}).Draw(t, "setupfail"))})
+		}
+		c.Scripts = append(c.Scripts, sc)
 	}
 	if rapid.IntRange(0, 2).Draw(t, "samebase") == 0 {
 		// scripts in different directories with equal (or counter-like) base names
@@ -447,6 +515,9 @@ func TestBatches(t *testing.T) {
 		}
 		if last.leftover {
 			cl = append(cl, "background-left-running")
+		}
+		if last.setupFail {
+			cl = append(cl, "setup-fails-after-defer")
 		}
 		return vt.Meta{NonTrivial: last.collide && last.midway, Classes: cl}
 	}, Reduce: func(c batchCase) []batchCase {
